@@ -4,6 +4,7 @@ from .. import common, graph, seeds
 
 PROP = 'C03'
 
+SUBSTITUTING = ('EliminateVariable', 'LetSubstitution', 'InlineDefinedFuns')
 CLOSURE = ['--no-erase-node', '--no-binary-reduction',
            '--no-introduce-fresh-variables']
 
@@ -108,6 +109,12 @@ def run_unit(unit):
                 'seed': text, 'state': state, 'argv': argv,
                 'regime': regime})
     clean = s.cycles(clean_only=True)
+    if not clean:
+        # KF-C03-1 is about ReplaceByVariable *together with* a substituting
+        # mutator: the graph must also be acyclic when the substituting
+        # mutators' edges are removed instead of ReplaceByVariable's
+        clean = s.cycles_without(SUBSTITUTING, also=(
+            'constants-inside-fp-constant', 'ev-ddmin-group-simultaneous'))
     if not clean:
         # every cycle of the explored graph runs through an edge that only
         # exists because of a known finding
